@@ -4,6 +4,7 @@
 -/
 import RV.Oracle.RolloutSM
 import RV.Props.RolloutThms
+import RV.Props.ClusterThms
 namespace RV.Props.Reconcile
 open RV.Arith RV.Traffic RV.RolloutSM RV.Oracle.RolloutSM RV.Props.Rollout
 
@@ -1877,4 +1878,182 @@ theorem enter_routing_gated (w : World) (r : StepResult) (h : reconcile w = .val
                 rw [← hui]; exact hud
               · simp only [hui, hcs, decide_true, Bool.true_or, Bool.or_true, Bool.true_and, Bool.and_true]
                 rw [← hui]; exact hud
+  · rfl
+
+/-! ### C04 (stable half) — a step that replaces every stable pod (whole reconcile) -/
+
+theorem runCanary_unpin (c0 c' : Ctx) (err : Bool) (h : runCanary c0 = .ok c' err)
+    (hinit : c0.sub.state = .init) (hcur : c'.sub.curIdx = c0.sub.curIdx)
+    (hleft : c'.sub.state = .upgrade ∨ c'.sub.state = .trafficRouting ∨ c'.sub.state = .metricsAnalysis)
+    (hfull : fullStep c0.ro c0.sub c0.wl = true) (hhas : c0.ro.hasTraffic = true) (hseen : c0.wlSeen = true) :
+    c'.net.stableExists = true → c'.net.stableSel.getD "" = "" := by
+  obtain ⟨y1, y2, y3, y4, y5⟩ := syncStep_sub c0
+  have hseen1 : (syncStep c0).wlSeen = true := by
+    unfold syncStep; dsimp only
+    cases c0.br with
+    | none => exact hseen
+    | some b => dsimp only; split <;> exact hseen
+  have hne : c'.sub.state ≠ .init := by rcases hleft with h1 | h1 | h1 <;> rw [h1] <;> simp
+  unfold runCanary at h
+  dsimp only at h
+  split at h
+  · cases h
+  · -- a jump lands in StepInit or StepTrafficRouting of the target step; from StepInit only in StepInit
+    rename_i s2 hj
+    cases h
+    obtain ⟨_, j2⟩ := jump_spec _ _ _ _ hj
+    obtain ⟨_, _, _, _, _, jst, jup⟩ := j2 rfl
+    dsimp only at hne hleft
+    rcases jst with jst | jst
+    · have := jup jst
+      rw [y3, hinit] at this
+      unfold Upgraded at this
+      simp at this
+    · exact absurd jst hne
+  · rename_i s2 hj
+    obtain ⟨j1, _⟩ := jump_spec _ _ _ _ hj
+    have hs2 := j1 rfl
+    subst hs2
+    split at h
+    · cases h
+    · rename_i step hstep
+      -- the step the oracle speaks about
+      have hstep' : c0.ro.steps[(c0.sub.curIdx - 1).toNat]? = some step := by rw [← y1]; exact hstep
+      unfold fullStep at hfull
+      rw [hstep'] at hfull
+      simp only [Bool.and_eq_true, decide_eq_true_eq] at hfull
+      obtain ⟨⟨hstyle, htraffic⟩, hrepl⟩ := hfull
+      have hpre : preStep step { syncStep c0 with sub := (syncStep c0).sub } = some ({ syncStep c0 with sub := (syncStep c0).sub }, true, false) := by
+        unfold preStep; simp [htraffic]
+      rw [hpre] at h
+      dsimp only at h
+      simp only [Bool.false_eq_true, if_false, not_true_eq_false] at h
+      unfold stateStep at h
+      dsimp only at h
+      rw [y3, hinit] at h
+      dsimp only at h
+      exact RV.Props.Cluster.initStep_full_unpins c0.ro step _ c' err (by simpa using hstyle) htraffic (by dsimp only; exact y4) hhas
+        (by dsimp only; exact hseen1) (by dsimp only; rw [y3]; exact hinit) (by dsimp only; rw [y5]; exact hrepl) h hne
+
+theorem inRolling_unpin (w : World) (old ns : Rollout) (s os : Sub) (wl : WL) (r : StepResult) (s' : Sub)
+    (hold : old.sub = some os) (hns : ns.sub = some s)
+    (h : inRolling w old ns s wl = .val r) (hs' : r.w.ro.sub = some s')
+    (hinit : s.state = .init) (hcur : s'.curIdx = s.curIdx)
+    (hleft : s'.state = .upgrade ∨ s'.state = .trafficRouting ∨ s'.state = .metricsAnalysis)
+    (hfull : fullStep ns s wl = true) (hhas : ns.hasTraffic = true) :
+    r.w.net.stableExists = true → r.w.net.stableSel.getD "" = "" := by
+  have stay : ∀ (P : Prop), s'.state = s.state → P := by
+    intro P h2
+    rw [h2, hinit] at hleft
+    rcases hleft with h1 | h1 | h1 <;> cases h1
+  unfold inRolling at h
+  dsimp only at h
+  rw [hold] at h
+  dsimp only at h
+  split at h
+  · cases h; dsimp only at hs'; cases hs'; exact stay _ rfl
+  · split at h
+    · cases h; dsimp only at hs'; rw [hns] at hs'; cases hs'; exact stay _ rfl
+    · split at h
+      · cases h; dsimp only at hs'; cases hs'
+        dsimp only at hleft; rcases hleft with h1 | h1 | h1 <;> cases h1
+      · split at h
+        · split at h
+          · cases h; dsimp only at hs'; rw [hns] at hs'; cases hs'; exact stay _ rfl
+          · split at h
+            · cases h
+            · rename_i c d e hreset
+              obtain ⟨_, _, st⟩ := reset_next _ _ _ _ hreset
+              unfold toCtx at st
+              dsimp only at st
+              split at h
+              · cases h; unfold ofCtx at hs'; dsimp only at hs'; cases hs'; exact stay _ st
+              · split at h
+                · cases h; unfold ofCtx at hs'; dsimp only at hs'; cases hs'
+                · cases h; unfold ofCtx at hs'; dsimp only at hs'; cases hs'; exact stay _ st
+        · split at h
+          · split at h
+            · cases h
+            · split at h
+              · cases h; dsimp only at hs'; cases hs'
+                dsimp only at hleft; rcases hleft with h1 | h1 | h1 <;> cases h1
+              · split at h
+                · cases h
+                · rename_i s2 j hj
+                  cases h; dsimp only at hs'; cases hs'
+                  obtain ⟨j1, j2⟩ := jump_spec _ _ _ _ hj
+                  cases j with
+                  | false => have := j1 rfl; subst this; exact stay _ rfl
+                  | true =>
+                    obtain ⟨_, _, _, _, _, jst, jup⟩ := j2 rfl
+                    rcases jst with jst | jst
+                    · have := jup jst
+                      dsimp only at this
+                      rw [hinit] at this
+                      unfold Upgraded at this
+                      simp at this
+                    · rw [jst] at hleft; rcases hleft with h1 | h1 | h1 <;> cases h1
+          · split at h
+            · rename_i hcomp
+              rw [hinit] at hcomp; cases hcomp
+            · split at h
+              · cases h
+              · rename_i c e hrun
+                cases h
+                unfold ofCtx at hs' ⊢; dsimp only at hs' ⊢; cases hs'
+                generalize hs0 : (if s.nextIdx ≤ 0 ∨ s.nextIdx > (ns.steps.length : Int) then
+                    { s with nextIdx := nextBatchIndex ns.steps.length s.curIdx } else s) = s0 at hrun
+                have hc0 : s0.curIdx = s.curIdx := by rw [← hs0]; split <;> rfl
+                have hst0 : s0.state = s.state := by rw [← hs0]; split <;> rfl
+                refine runCanary_unpin _ _ _ hrun (by unfold toCtx; dsimp only; rw [hst0]; exact hinit)
+                  (by unfold toCtx; dsimp only; rw [hc0]; exact hcur) hleft ?_ (by unfold toCtx; exact hhas) (by unfold toCtx; rfl)
+                unfold toCtx; dsimp only
+                unfold fullStep at hfull ⊢
+                rw [hc0]; exact hfull
+
+/-- **C04 (stable half, whole reconcile)** — for every world with a readable workload: when one reconcile moves a
+    rolling canary rollout out of `StepInit` of a step (with traffic) whose replicas cover the whole
+    workload — i.e. hands the batch that replaces the last stable pod to the BatchRelease — the stable
+    Service, if it exists, is un-pinned afterwards. -/
+theorem full_step_unpins_first (w : World) (r : StepResult) (h : reconcile w = .val r) :
+    fullStepUnpinsFirst w r = true := by
+  unfold fullStepUnpinsFirst
+  cases hos : w.ro.sub with
+  | none => rfl
+  | some os =>
+  cases hs' : r.w.ro.sub with
+  | none => rfl
+  | some s' =>
+  cases hw : w.wl with
+  | none => rfl
+  | some wl =>
+  dsimp only
+  split
+  · rename_i hc
+    obtain ⟨hnow, hrr, hhas, hcons, h1, hinit, hleft, hcur, hfull⟩ := hc
+    have hnow' := hnow
+    unfold inRollingNow at hnow'
+    simp only [Bool.and_eq_true, decide_eq_true_eq, Bool.not_eq_true'] at hnow'
+    obtain ⟨⟨hph, hr⟩, hndel⟩ := hnow'
+    obtain ⟨ns, s, hsame, hs, hcore, hreason, hrec⟩ := reconcile_inRolling w wl os hph hr hw hcons hos
+    simp only [subCore, Prod.mk.injEq] at hcore
+    obtain ⟨c1, _, c3, _⟩ := hcore
+    rw [hrec] at h
+    split at h
+    · cases h
+    · rename_i r0 hir
+      split at h
+      · cases h
+        exfalso
+        dsimp only at hs'; rw [hf_frame w.ro] at hs'; dsimp only at hs'; rw [hos] at hs'; cases hs'
+        rw [hinit] at hleft; rcases hleft with h1 | h1 | h1 <;> cases h1
+      · cases h
+        have hfull' : fullStep ns s wl = true := by
+          unfold fullStep at hfull ⊢
+          rw [hsame.1, hsame.2.2.1, c1]; exact hfull
+        have := inRolling_unpin w w.ro ns s os wl r0 s' hos hs hir hs' (by rw [c3]; exact hinit) (by rw [c1]; exact hcur)
+          hleft hfull' (by rw [hsame.2.1]; exact hhas)
+        cases hse : r0.w.net.stableExists with
+        | false => simp
+        | true => simp [this hse]
   · rfl
